@@ -5,6 +5,10 @@ from . import findings
 
 VERIF = os.path.dirname(os.path.dirname(os.path.dirname(os.path.abspath(__file__))))
 EVID = os.path.join(VERIF, "evidence")
+if os.environ.get("VERIF_REPO"):
+    # development runs against a scratch copy of the repository (mutants, fix trials) must not
+    # overwrite the evidence of the registered checks
+    EVID = os.path.join(VERIF, "evidence", "alt")
 
 
 class Report:
